@@ -123,6 +123,17 @@ structure ClipState (K : Type) where
 FIX (`fixes/C17-clip-aabb-line.diff`): the pinned tree also returns `None` when `tmax < 0.0` (a *ray* test inside the *line*
 clipper: `clip_line_parameters` of a line whose box lies behind `origin` answers "no intersection"); the corrected code
 keeps only `tmin > tmax` (the ray test moves to `ray_aabb`; `clip_ray_parameters` already has its own). -/
+def clipUpdate (st : ClipState K) (near far : K) (flip : Bool) (i : Fin 3) : Option (ClipState K) :=
+  let st1 : ClipState K :=
+    if st.tmin < near then
+      { st with tmin := near, nearSide := if flip then -((i.val : Int) + 1) else (i.val : Int) + 1, nearDiag := false }
+    else if neq near st.tmin then { st with nearDiag := true } else st
+  let st2 : ClipState K :=
+    if far < st1.tmax then
+      { st1 with tmax := far, farSide := if !flip then -((i.val : Int) + 1) else (i.val : Int) + 1, farDiag := false }
+    else if neq far st1.tmax then { st1 with farDiag := true } else st1
+  if st2.tmax < st2.tmin then none else some st2
+
 def clipStep (b : Aabb3 K) (o d : V3 K) (st : ClipState K) (i : Fin 3) : Option (ClipState K) :=
   if neq (d.get i.val) 0 then
     if o.get i.val < b.mins.get i.val || b.maxs.get i.val < o.get i.val then none else some st
@@ -133,15 +144,7 @@ def clipStep (b : Aabb3 K) (o d : V3 K) (st : ClipState K) (i : Fin 3) : Option 
     let flip : Bool := decide (f0 < n0)
     let near := if flip then f0 else n0
     let far := if flip then n0 else f0
-    let st1 : ClipState K :=
-      if st.tmin < near then
-        { st with tmin := near, nearSide := if flip then -((i.val : Int) + 1) else (i.val : Int) + 1, nearDiag := false }
-      else if neq near st.tmin then { st with nearDiag := true } else st
-    let st2 : ClipState K :=
-      if far < st1.tmax then
-        { st1 with tmax := far, farSide := if !flip then -((i.val : Int) + 1) else (i.val : Int) + 1, farDiag := false }
-      else if neq far st1.tmax then { st1 with farDiag := true } else st1
-    if st2.tmax < st2.tmin then none else some st2
+    clipUpdate st near far flip i
 
 def clipInit : ClipState K :=
   { tmin := -f64Max, tmax := f64Max, nearSide := 0, farSide := 0, nearDiag := false, farDiag := false }
